@@ -225,7 +225,7 @@ def run(pid, tier, seed, workers=None, chunk=None):
     rdir = os.path.join(ROOT, 'replays', pid)
     reported = 0
     nondet = 0
-    for v in new[:25]:
+    for v in new[:10]:
         os.makedirs(rdir, exist_ok=True)
         h = hashlib.sha1(json.dumps([v['sig'], v['case']], sort_keys=True).encode()).hexdigest()[:12]
         path = os.path.join(rdir, h + '.json')
@@ -245,8 +245,8 @@ def run(pid, tier, seed, workers=None, chunk=None):
         reported += 1
         print('VIOLATION property=%s replay=%s' % (pid, path))
         print('  %s: %s' % (v['sig'], v['msg'][:400]))
-    if len(new) > 25:
-        print('  (%d further distinct violation signatures not written out)' % (len(new) - 25))
+    if len(new) > 10:
+        print('  (%d further distinct violation signatures not written out)' % (len(new) - 10))
 
     wall = time.time() - t0
     cov = {
